@@ -373,3 +373,18 @@ def mesh_from_faces(xf):
     import flowdyn.mesh as fmesh
     xf = np.array(xf, dtype=float)
     return fmesh.morphedmesh(ncell=len(xf) - 1, length=float(xf[-1] - xf[0]), x0=float(xf[0]), morph=lambda x, _xf=xf: _xf.copy())
+
+
+def scale_mesh(desc, fac):
+    """the same mesh in other length units (all lengths and the origin multiplied by fac)"""
+    d = dict(desc)
+    k = d["kind"]
+    if k in ("uni", "morph"):
+        d["length"] = d["length"] * fac
+        d["x0"] = d.get("x0", 0.0) * fac
+    elif k == "refined":
+        d["length"] = d["length"] * fac
+    elif k == "faces":
+        d["x0"] = d["x0"] * fac
+        d["w"] = [w * fac for w in d["w"]]
+    return d
